@@ -627,6 +627,28 @@ mut('c13-getowner-last', ['C13'], BU,
 mut('c13-reply-constant', ['C13'], CL,
     [("NAME_IN_QUEUE = 2\nNAME_IN_USE = 3", "NAME_IN_QUEUE = 3\nNAME_IN_USE = 2")], ['C13.D1'])
 
+# ---- C14 ------------------------------------------------------------------
+twin('c14-prefix-unicast-broadcast', ['C14'], '01c13cb', ['C14.D4'], 'pre-fix twin')
+twin('c14-prefix-match-lifecycle', ['C14'], '157b7be', ['C14.D5', 'C14.D6'], 'pre-fix twin')
+mut('c14-sender-not-overwritten', ['C14'], BU,
+    [("        msg.sender = self.uniqueName\n", "        if msg.sender is None:\n            msg.sender = self.uniqueName\n")], ['C14.D3'],
+    note='a forged sender field is kept')
+mut('c14-new-serial-on-forward', ['C14'], BU,
+    [("        msg._marshal(False)", "        msg._marshal()")], ['C14.D3'])
+mut('c14-next-id-reset', ['C14'], BU,
+    [("        if proto.uniqueName:\n            del self.clients[proto.uniqueName]", "        if proto.uniqueName:\n            del self.clients[proto.uniqueName]\n            self.next_id -= 1")], ['C14.D2'],
+    note='unique names get reused after a disconnect')
+mut('c14-register-wrong-key', ['C14'], BU,
+    [("        self.clients[proto.uniqueName] = proto", "        self.clients[':1.%d' % (self.next_id,)] = proto")], ['C14.D2'])
+mut('c14-forward-deferred', ['C14'], BU,
+    [("            if p:\n                p.sendMessage(msg)", "            if p:\n                from twisted.internet import reactor\n                reactor.callLater(0, p.sendMessage, msg)")], ['C14.D7', 'C14.D4'])
+mut('c14-bus-calls-forwarded', ['C14'], BU,
+    [("            elif not msg.destination == 'org.freedesktop.DBus':", "            else:")], ['C14.D4'])
+mut('c14-removematch-keeps-router-rule', ['C14'], BU,
+    [("        self.router.delMatch(rule_ids.pop())\n", "        rule_ids.pop()\n")], ['C14.D5'])
+mut('c14-stub-signature', ['C14'], CL,
+    [("            'ReleaseName',\n            interface='org.freedesktop.DBus',\n            signature='s',", "            'ReleaseName',\n            interface='org.freedesktop.DBus',\n            signature='su',")], ['C14.D6'])
+
 # benign variants --------------------------------------------------------------
 mut('ok-int16-condexpr', ['C01', 'C02'], M,
     [("return 2, [struct.pack(lendian and '<h' or '>h', var)]",
